@@ -189,6 +189,9 @@ func Exec(c hx.Case) hx.Result {
 	}()
 	// (a case of several hundred thousand operations gets proportionally more time)
 	limit := watchdog + time.Duration(len(c.Ops)/10000)*time.Second
+	if hx.HeaderGet(c.Header, "huge") != "" {
+		limit = 90 * time.Second // millions of entries behind a single line
+	}
 	select {
 	case <-done:
 		return res
@@ -210,6 +213,15 @@ func Exec(c hx.Case) hx.Result {
 }
 
 func exec(c hx.Case, res *hx.Result, mu *sync.Mutex) {
+	if hx.HeaderGet(c.Header, "huge") != "" {
+		var r hx.Result
+		r.BadOp = -1
+		execHuge(c, &r)
+		mu.Lock()
+		*res = r
+		mu.Unlock()
+		return
+	}
 	comp := hx.HeaderGet(c.Header, "comp")
 	ori := hx.HeaderGet(c.Header, "ori")
 	size, _ := strconv.Atoi(hx.HeaderGet(c.Header, "size"))
@@ -978,6 +990,7 @@ func Main(run *hx.Run) {
 		}
 	}
 	hardFamilies(run)
+	hugeFamilies(run)
 
 	// maxDegree: the integer Model of the float computation, on every n of a range
 	hi := 100000
